@@ -157,6 +157,8 @@ def run(ctx):
         pcs = [(strip_site(a), t) for a, t in o.st.pc]
         ss = ('field', ('param', 'settings'), 'std_stream')
         v = strip_site(o.val)
+        if v[0] == 'tryerr' and v[1][0] == 'ctor' and v[1][1] == 'Err':
+            v = v[1]            # `helper(..)?` propagating the helper's Err(x) is the same result as `return Err(x)`
         con = [e for e in o.st.ev if e[0] == 'call' and e[1].endswith('UnixStream::connect')]
         none = absx.pc_variant(pcs, lambda v: v == ss, 'None')
         if none is True:
